@@ -334,6 +334,9 @@ func C06(c *runner.Cfg) *report.Result {
 		}
 	}
 	slot.Done()
+	if !c.Abort.Load() {
+		endingsUnderBackPressure(c, res, logger)
+	}
 	// log monitor
 	for _, r := range logger.Records() {
 		switch {
